@@ -322,9 +322,9 @@ def recvUp (t : Topo) (s : State) (n : Nat) (emits : List (Dest × Msg)) (fails 
   | [] =>
     if s.alive (t.parent n) && s.downOpen n then none
     else
-      -- ServerBase.handle_disconnect: unregister + close; upstream is not an employee:
-      -- the manager keeps running
-      some { s with upOpen := upd s.upOpen n false }
+      -- Manager.handle_disconnect (fix 856c0e9): unregister + close upstream, and losing
+      -- the boss shuts the manager down (the SHUTDOWN it tries to send upstream fails silently)
+      some (shutdownNode t { s with upOpen := upd s.upOpen n false } n)
   | m :: rest =>
     let s := { s with inbox := upd s.inbox n rest }
     match m with
@@ -518,6 +518,43 @@ def runCount (t : Topo) (d : Nat) : State → List Label → Option (State × Na
     | some s' => match runCount t d s' ls with
       | none => none
       | some (sf, c, g) => some (sf, c + b2n (isCrit t s d l), g + growth t s d l)
+
+/-! ### downwards: every node whose boss is gone stops -/
+
+/-- what node `i` still costs downwards: nothing once it is gone; otherwise the messages
+pending from its boss, the EOF / SHUTDOWN that ends them, and the SHUTDOWN its boss will
+still write when it stops -/
+def dweight (t : Topo) (s : State) (i : Nat) : Nat :=
+  if i = 0 || s.gone i then 0
+  else (s.inbox i).length + 1 + b2n (!(s.gone (t.parent i)))
+
+/-- D(state): over all nodes -/
+def dpotential (t : Topo) (s : State) : Nat := sumMap (dweight t s) (List.range t.n)
+
+/-- a critical delivery downwards: a live node reads the connection of its gone boss -/
+def isDownCrit (t : Topo) (s : State) : Label → Bool
+  | .recvUp n _ _ => s.gone (t.parent n) && !(s.gone n)
+  | .wrecv w => s.gone (t.parent w) && !(s.gone w)
+  | _ => false
+
+/-- ordinary traffic a live boss still pushes down -/
+def downGrowth (t : Topo) (s : State) : Label → Nat
+  | .flush n => match s.outq n with
+    | (.emp e, _) :: _ => (List.range t.n).count e
+    | _ => 0
+  | _ => 0
+
+/-- `run` counting critical deliveries (up towards the server for the gone node `d`, and down)
+and growth (both directions) -/
+def runCountAll (t : Topo) (d : Nat) : State → List Label → Option (State × Nat × Nat)
+  | s, [] => some (s, 0, 0)
+  | s, l :: ls => match step t s l with
+    | none => none
+    | some s' => match runCountAll t d s' ls with
+      | none => none
+      | some (sf, c, g) =>
+        some (sf, c + b2n (isCrit t s d l) + b2n (isDownCrit t s l),
+              g + growth t s d l + downGrowth t s l)
 
 /-! ### topologies used by the driver and the examples -/
 
